@@ -362,7 +362,7 @@ func (ex *Exec) callStaticBind(fr *Frame, st *State, fn *ssa.Function, args []Va
 			return r
 		}
 	}
-	if c := ex.activeContract(key); c != nil && !c.Flags["inline"] {
+	if c := ex.activeContract(key); c != nil && !c.Flags["inline"] && !ex.emptyContractOfSmallHelper(c, fn) {
 		// rule 1: by contract, the body is not looked at
 		var obj *types.Func
 		if o, ok := fn.Object().(*types.Func); ok {
@@ -1088,4 +1088,47 @@ func paramNameOfValue(fn *ssa.Function, v ssa.Value) string {
 		}
 	}
 	return ""
+}
+
+// emptyContractOfSmallHelper: the function has a contract only because a blanket schema ("every function of the package
+// is used through its contract") gave it one, that contract says nothing under the property in force, and the function
+// is a small, loop-free, non-recursive helper of the package under proof: it is then executed in its caller's context
+// like a helper without contract. (Extracting a few statements into a new helper must not turn them into an unknown.)
+func (ex *Exec) emptyContractOfSmallHelper(c *Contract, fn *ssa.Function) bool {
+	if !c.Synth || len(c.Flags) > 0 || fn == nil || len(fn.Blocks) == 0 || ex.topFrame == nil || !samePackage(fn, ex.topFrame.fn) {
+		return false
+	}
+	for _, cl := range c.Clauses {
+		if tagActive(cl.Tags, ex.prop) && cl.Kind != "exempt" {
+			return false
+		}
+	}
+	if v, ok := ex.smallHelper[fn]; ok {
+		return v
+	}
+	n := 0
+	small := true
+	for _, b := range fn.Blocks {
+		n += len(b.Instrs)
+		for _, ins := range b.Instrs {
+			if ci, ok := ins.(ssa.CallInstruction); ok {
+				if sc := ci.Common().StaticCallee(); sc == fn {
+					small = false // recursive
+				}
+			}
+		}
+		for _, succ := range b.Succs {
+			if succ.Index <= b.Index {
+				small = false // a loop
+			}
+		}
+	}
+	if n > 120 {
+		small = false
+	}
+	if ex.smallHelper == nil {
+		ex.smallHelper = map[*ssa.Function]bool{}
+	}
+	ex.smallHelper[fn] = small
+	return small
 }
